@@ -338,6 +338,13 @@ func (w *world) queueStage(b *QBeh, k int) (res *mismatch) {
 		}
 	}
 	as2 := fracmanager.MustStartAsync(fracmanager.AsyncSearcherConfig{DataDir: dir2, Parallelism: par}, w.e.MP, w.e.FM())
+	defer func() {
+		if res != nil { // nothing of the restarted searcher may run on when the store (and its directory) goes away
+			for _, id := range accepted {
+				waitDoneID(as2, id, 3*time.Second)
+			}
+		}
+	}()
 	role := func(id string) string {
 		for _, q := range queued {
 			if q == id {
